@@ -449,9 +449,116 @@ def r11_immediate_parameter_index(run, F):
                "(push const_i32(0) under the immediate-parameter flag), as its sibling has" % kind)
 
 
+def r12_immediate_flag_scope(run, F):
+    """The immediate-parameter flag says "the address at hand still *is* the parameter's value, an automatic dereference needs no
+    load".  That is true until the address is replaced (by the data pointer extracted from a slice parameter, by a loaded
+    pointer): from then on every automatic dereference must load.  In each arm of the step loop of generate_storage_address, an
+    assignment to the address local is therefore only reached with the flag known false -- after `flag = false`, or after
+    `if flag { ..; continue }`.  (`data[0]` with `data: []&i32` skipped the load of the element pointer.)"""
+    cands = [x for p, x in F.lib.bodies.items() if p.endswith("::generate_storage_address")]
+    run.require(len(cands) == 1, "generate_storage_address not found")
+    b = cands[0]
+    flag_lids = set()
+    for n in walk(b["hir"]):
+        if n.get("k") == "Assign" and hirq.unwrap_trivial(n["rhs"]).get("v") is True:
+            l = hirq.unwrap_trivial(n["lhs"])
+            if l.get("k") == "Path" and l.get("rk") == "Local" and str(F.lib.ty(l.get("t"))) == "bool":
+                flag_lids.add(l.get("lid"))
+    # the address local: the one the function hands back in Ok(..) at its end
+    body = hirq.unwrap_trivial(b["hir"])
+    tail = hirq.unwrap_trivial(body.get("e") or {})
+    addr = None
+    if tail.get("k") == "Call" and (hirq.callee(tail) or "").endswith("Ok") and tail.get("a"):
+        a0 = hirq.unwrap_trivial(tail["a"][0])
+        if a0.get("k") == "Path" and a0.get("rk") == "Local":
+            addr = a0.get("lid")
+    ms = [m for m in hirq.matches(b["hir"]) if sum(1 for a in m["arms"] for alt in hirq.pat_alts(a["pat"]) if "ReferenceStep::" in hirq.pat_key(alt)) >= 5
+          and not any(c.get("k") == "MethodCall" and c.get("name") == "peek" for c in hirq.calls(m["scrut"]))]
+    run.require(len(flag_lids) == 1 and addr is not None and len(ms) == 1, "generate_storage_address: flag %s, address local %s, step match %d" % (flag_lids, addr, len(ms)))
+    flag = list(flag_lids)[0]
+
+    def is_flag(e):
+        e = hirq.unwrap_trivial(e)
+        return e.get("k") == "Path" and e.get("lid") == flag
+
+    def diverges(blk):
+        blk = hirq.unwrap_trivial(blk)
+        if blk.get("k") != "Block":
+            return blk.get("k") in ("Continue", "Break", "Ret")
+        last = blk["stmts"][-1] if blk.get("stmts") else None
+        e = blk.get("e")
+        x = hirq.unwrap_trivial(e) if e is not None else (hirq.unwrap_trivial(last.get("e", {})) if last and last.get("k") in ("Semi", "Expr") else {})
+        return x.get("k") in ("Continue", "Break", "Ret")
+
+    bad = []
+
+    def scan(n, known_false):
+        """returns whether the flag is known false after n"""
+        n = hirq.unwrap_trivial(n)
+        k = n.get("k")
+        if k == "Block":
+            st = known_false
+            for s in n.get("stmts", []):
+                if s.get("k") == "Let":
+                    if isinstance(s.get("init"), dict):
+                        st = scan(s["init"], st)
+                else:
+                    st = scan(s.get("e", s), st)
+            if n.get("e") is not None:
+                st = scan(n["e"], st)
+            return st
+        if k == "Assign":
+            l = hirq.unwrap_trivial(n["lhs"])
+            if l.get("k") == "Path" and l.get("lid") == flag:
+                return hirq.unwrap_trivial(n["rhs"]).get("v") is False
+            st = scan(n["rhs"], known_false)
+            if l.get("k") == "Path" and l.get("lid") == addr and not st:
+                bad.append(n)
+            return st
+        if k == "If":
+            if is_flag(n["cond"]):
+                t = scan(n["then"], False)
+                e = scan(n["else"], True) if n.get("else") is not None else True
+                return (t or diverges(n["then"])) and (e or (n.get("else") is not None and diverges(n["else"])))
+            st = scan(n["cond"], known_false)
+            t = scan(n["then"], st)
+            e = scan(n["else"], st) if n.get("else") is not None else st
+            return (t or diverges(n["then"])) and (e or (n.get("else") is not None and diverges(n["else"])))
+        if k == "Match":
+            st = scan(n["scrut"], known_false)
+            outs = [scan(a["body"], st) or diverges(a["body"]) for a in n["arms"]]
+            return all(outs)
+        if k in ("Loop", "Closure"):
+            scan(n.get("body", n.get("e", {})) if isinstance(n.get("body", n.get("e")), dict) else {}, False)
+            return False
+        st = known_false
+        for v in n.values():
+            if isinstance(v, dict) and "k" in v:
+                st = scan(v, st)
+            elif isinstance(v, list):
+                for x in v:
+                    if isinstance(x, dict) and "k" in x:
+                        st = scan(x, st)
+        return st
+    narms = 0
+    for a in ms[0]["arms"]:
+        assigns = [x for x in walk(a["body"]) if x.get("k") == "Assign" and hirq.unwrap_trivial(x["lhs"]).get("lid") == addr]
+        if not assigns:
+            continue
+        narms += 1
+        bad.clear()
+        scan(a["body"], False)
+        label = "|".join(sorted(set(hirq.pat_key(alt).split("::")[-1] for alt in hirq.pat_alts(a["pat"]))))
+        run.ob("R12-IMMEDIATE-FLAG-SCOPE", label, not bad, F.where(b, bad[0]) if bad else F.where(b, a),
+               "in the %s arm the address is replaced while the immediate-parameter flag may still be set: a later automatic dereference "
+               "would skip its load (`data[0]` with `data: []&i32`; `data[1].leaf.value` with `leaf: &Leaf`)" % label)
+    run.ob("R12-IMMEDIATE-FLAG-SCOPE", "scan", narms >= 2, F.where(b), "%d arms of the step loop replace the address (Autoderef/Autoview, Autodeslice 0)" % narms)
+
+
 def check(run):
     F = run.facts("B")
     r11_immediate_parameter_index(run, F)
+    r12_immediate_flag_scope(run, F)
     r10_step_chaining(run, F)
     r1_binary(run, F)
     r2_comparison(run, F)
